@@ -4,4 +4,6 @@ val map : ('a1 -> 'a2) -> 'a1 list -> 'a2 list
 
 val fold_left : ('a1 -> 'a2 -> 'a1) -> 'a2 list -> 'a1 -> 'a1
 
+val forallb : ('a1 -> bool) -> 'a1 list -> bool
+
 val firstn : nat -> 'a1 list -> 'a1 list
